@@ -249,6 +249,36 @@ class Double(Decimal):
                 )
 
 
+    @staticmethod
+    def validate_native(cls, value):
+        if isinstance(value, float) and (value != value
+                                               or value in (_INF, -_INF)):
+            return (SimpleModel.validate_native(cls, value)
+                        and _double_special_in_range(cls.Attributes, value))
+
+        return Decimal.validate_native(cls, value)
+
+
+_INF = float('inf')
+
+
+def _double_special_in_range(attrs, value):
+    """xs:double has three values that the generic range check can't judge:
+    comparing a NaN with the ``Decimal`` defaults raises InvalidOperation, and
+    the exclusive defaults ``gt=-inf`` / ``lt=inf`` would exclude the infinities
+    from a type that declares no range at all. An exclusive bound that is still
+    infinite declares nothing; NaN is outside every declared range."""
+
+    if value != value:
+        return (attrs.gt == -_INF and attrs.ge == -_INF
+                                     and attrs.lt == _INF and attrs.le == _INF)
+
+    return (    (attrs.gt == -_INF or value > attrs.gt)
+            and value >= attrs.ge
+            and (attrs.lt == _INF or value < attrs.lt)
+            and value <= attrs.le)
+
+
 class Float(Double):
     """Synonym for Double (as far as python side of things are concerned).
     It's here for compatibility reasons."""
